@@ -632,9 +632,7 @@ def replay(rep: dict) -> bool:
         eng = toy_engine()
         eng.forward_operator, eng.backward_operator = T.fft2, T.ifft2
         if op == "raises":
-            for o in ("fwdOp", "bwdOp", "astar", "loglik-y"):
-                replay(dict(rep, op=o))      # raises -> still failing (caught below)
-            return False
+            return any(replay(dict(rep, op=o)) for o in ("fwdOp", "bwdOp", "astar", "loglik-y"))
         if op == "fwdOp":
             fo = _bits(eng._forward_operator(x, S, m))
             ref = _bits(T.fft2(T.expand_operator(x, S, dim=1), dim=(2, 3)))
